@@ -231,6 +231,18 @@ def step(rig, p):
         m.cob_id = None if p[2] == "n" else int(p[2])
         m.enabled, m.rtr_allowed = p[3] == "1", p[4] == "1"
         return "ok"
+    if k == "d":
+        # the configuration comes from the dictionary: communication parameter 1 = cob | invalid<<31 | no-RTR<<30,
+        # the mapping parameter names the map's own layout; PdoMap.read(from_od=True)
+        m = rig.cm[int(p[1])]
+        lay = [(v.index, v.length) for v in m.map]
+        m.com_record[1].od.value = int(p[2]) | (0 if p[3] == "1" else 0x80000000) | (0 if p[4] == "1" else 0x40000000)
+        m.com_record[2].od.value = 255
+        m.map_array[0].od.value = len(lay)
+        for i, (idx, ln) in enumerate(lay, 1):
+            m.map_array[i].od.value = (idx << 16) | ln
+        m.read(from_od=True)
+        return "ok"
     if k == "b":
         idx, tag = int(p[1]), int(p[2])
         rig.cm[idx].add_callback(lambda mp, idx=idx, tag=tag: rig.cblog.append((idx, tag)))
@@ -407,6 +419,14 @@ def oracle(op, out):
             m = cons[int(p[1])]
             m.cob = None if p[2] == "n" else int(p[2])
             m.en, m.rtr = p[3] == "1", p[4] == "1"
+        elif k == "d":
+            m = cons[int(p[1])]
+            m.cob, m.en, m.rtr = int(p[2]), p[3] == "1", p[4] == "1"
+            m.x, m.n = 0, m.size                      # cleared and mapped again: all-zero data
+            if m.en:
+                lst = subs.setdefault(m.cob, [])
+                if int(p[1]) not in lst:
+                    lst.append(int(p[1]))
         elif k == "b":
             cons[int(p[1])].cbs.append(int(p[2]))
         elif k == "T":
@@ -505,6 +525,8 @@ def gen_ops(tier, rng):
                 steps.append(f"c.{k}.{rng.choice([str(c) for c in cobs] + ['n'])}.{rng.randint(0, 1)}.{rng.randint(0, 1)}")
                 if rng.random() < 0.7:
                     steps.append(f"s.{k}")
+                elif rng.random() < 0.6:
+                    steps[-1] = f"d.{k}.{rng.choice(cobs)}.{rng.randint(0, 1)}.{rng.randint(0, 1)}"
             elif r < 0.94:
                 steps.append(f"T.{k}.{rng.randint(0, 1)}")
             else:
